@@ -312,9 +312,11 @@ class IncRun:
         self.caller = []            # outcomes delivered to awaiting callers
         self.hook_calls = 0
         self.hook_pending = None
+        self.hook_tracked = 0
         self.pull_task = None
         self.close_task = None
         self.closed = self.ended = self.aborted = False
+        self.completed = False
         self.hang = False
         self.res = None
         self.ctl = AbortController() if with_signal else None
@@ -325,6 +327,9 @@ class IncRun:
         def hook(info):
             self.hook_calls += 1
             self.hook_pending = [self._tname(t) for t in self.loop.pending_tasks() if t not in self._mine()]
+            ex = getattr(info, "executor", None)
+            self.hook_tracked = sum(1 for f in list(getattr(ex, "background_futures", ()) or ()) + list(getattr(ex, "pending_incremental_futures", ()) or ())
+                                    if not f.done() and not (hasattr(f, "cancelling") and f.cancelling()))
 
         kw = {}
         if with_signal:
@@ -386,9 +391,9 @@ class IncRun:
         incremental = self.res is not None and hasattr(self.res, "subsequent_results")
         if incremental and not self.closed and not self.ended and idle:
             acts.append(("pull",))
-            if stops:
+            if stops and not self.completed:
                 acts.append(("close",))
-        if stops and self.with_signal and not self.aborted and not self.closed and not self.ended:
+        if stops and self.with_signal and not self.aborted and not self.closed and not self.ended and not self.completed:
             acts.append(("abort",))
         return acts
 
@@ -397,6 +402,8 @@ class IncRun:
             p = await anext(self.res.subsequent_results)
             self.payloads.append(p.formatted)
             self.caller.append("payload")
+            if not p.has_next:
+                self.completed = True      # the last payload has been delivered
         except StopAsyncIteration:
             self.ended = True
             self.caller.append("end")
@@ -437,13 +444,28 @@ class IncRun:
             n += 1
         return n < limit
 
+    def after_stop(self, rng=None):
+        """Stop protocol (DESIGN C06): an abort with nobody awaiting is judged after the consumer's next
+        interaction; then the environment completes every gate the code has not cancelled."""
+        incremental = self.res is not None and hasattr(self.res, "subsequent_results")
+        idle = self.pull_task is None or self.pull_task.done()
+        self.snapshot_at_stop = {"pending_gates": sorted(g for g, f in self.gates.items() if not f.done())}
+        if self.aborted and incremental and not self.closed and not self.ended and idle:
+            self.do(("pull",))
+        for _ in range(200):
+            pend = [g for g, f in self.gates.items() if not f.done()]
+            if not pend:
+                break
+            g = pend[0] if rng is None else rng.choice(pend)
+            self.do(("settle", g))
+
     def finish(self):
         pend = [t for t in self.loop.pending_tasks()]
         o = {
             "pending_tasks": sorted(self._tname(t) for t in pend if t not in self._mine()),
             "open_gates": sorted(g for g, f in self.gates.items() if not f.done() and not f.cancelled()),
             "cancelled_gates": sorted(g for g, f in self.gates.items() if f.cancelled()),
-            "hook_calls": self.hook_calls, "hook_pending": self.hook_pending,
+            "hook_calls": self.hook_calls, "hook_pending": self.hook_pending, "hook_tracked": self.hook_tracked,
             "sources": [{"key": s.key, "started": s.started, "exhausted": s.exhausted, "raised": s.raised,
                          "aclose": s.aclose_calls, "anext": s.anext_calls} for s in self.sources],
             "caller": list(self.caller), "closed": self.closed, "ended": self.ended, "aborted": self.aborted,
